@@ -35,6 +35,37 @@ func streamActions(txDt time.Duration) []Action {
 	}
 }
 
+// aroundZero: operations on stream A->R1 executed in a block whose time is placed relative to the
+// stream's advertised deposit-zero time (a fraction of a second before it, and exactly at it).
+func aroundZero() []Action {
+	var out []Action
+	at := func(name string, offNs int64, m model.Msg) Action {
+		a := jump(name, func(st *model.State) (int64, int64) {
+			z := new(big.Int).Add(st.Str["R1|A"].Z, big.NewInt(offNs))
+			q, r := new(big.Int).DivMod(z, big.NewInt(1_000_000_000), new(big.Int))
+			return q.Int64(), r.Int64()
+		})
+		a.Txs = tx1(m)
+		a.Enabled = func(st *model.State, _ map[string]int) bool {
+			s, ok := st.Str["R1|A"]
+			return ok && new(big.Int).Add(s.Z, big.NewInt(offNs)).Cmp(st.Now) > 0
+		}
+		return a
+	}
+	for _, off := range []struct {
+		n  string
+		ns int64
+	}{{"Z-0.3s", -300_000_000}, {"Z", 0}} {
+		out = append(out,
+			at("topup(A->R1,65nund)@"+off.n, off.ns, model.Msg{Kind: model.StrTopUp, From: "A", To: "R1", Den: mc.Nund, Amt: "65"}),
+			at("claim(R1<-A)@"+off.n, off.ns, model.Msg{Kind: model.StrClaim, From: "R1", To: "A"}),
+			at("cancel(A->R1)@"+off.n, off.ns, model.Msg{Kind: model.StrCancel, From: "A", To: "R1"}),
+			at("update(A->R1,@3)@"+off.n, off.ns, model.Msg{Kind: model.StrUpdate, From: "A", To: "R1", Rate: 3}),
+		)
+	}
+	return out
+}
+
 func timeSteps(horizonS int64, dts ...time.Duration) []Action {
 	var out []Action
 	for _, d := range dts {
@@ -219,7 +250,8 @@ func c10Scenario() *Scenario {
 		govOnce("gov(fee=0.5)", model.StrParams, "0.500000000000000000"),
 		govOnce("gov(fee=1)", model.StrParams, "1.000000000000000000"),
 	)
-	s.Actions = append(s.Actions, timeSteps(800, 30*time.Second, 61*time.Second, 700*time.Second)...)
+	s.Actions = append(s.Actions, timeSteps(800, 700*time.Millisecond, 30*time.Second, 61*time.Second, 700*time.Second)...)
+	s.Actions = append(s.Actions, aroundZero()...)
 	return s
 }
 
